@@ -21,6 +21,11 @@ let q_parse_op s = match sp '.' s with
   | ["vg"] -> VecGrow
   | ["vc"] -> VecClear
   | ["vt"; i; k] -> VecTake (ni (ios i), ni (ios k))
+  | ["an"; i] -> AssignNull (ni (ios i))
+  | ["vn"; k] -> VecAssignNull (ni (ios k))
+  | ["sw"; i; j] -> Swap (ni (ios i), ni (ios j))
+  | ["dc"; i] -> DefCtor (ni (ios i))
+  | ["vo"] -> VecPop
   | _ -> failwith "qop"
 let q_ntypes = 3
 let q_obs_ptr = function None -> "N" | Some (id, _) -> string_of_int (inn id)
@@ -88,6 +93,12 @@ let oracle_q n ops obs =
                 | _ -> List.length st.heap = List.length !prev.heap)
             (* the source of a move and the target of reset are empty afterwards *)
             && (if app then (match must_be_empty o with Some j -> slot_is_null st j | None -> true) else true)
+            && (if app then (match vec_must_be_null o with Some j -> vec_is_null st j | None -> true) else true)
+            (* swap exchanges what the two pointers own and destroys nothing *)
+            && (match o with
+                | Swap (i, j) when app -> st.heap = !prev.heap && nth_error st.pool i = nth_error !prev.pool j
+                                          && nth_error st.pool j = nth_error !prev.pool i
+                | _ -> true)
             && List.length st.pool = List.length !prev.pool
           end else
             r = "fin" && heap_extends !prev.heap st.heap && List.length st.heap = List.length !prev.heap
